@@ -38,6 +38,11 @@ FP(op) ==
     [] op = "wrap-explicit"   -> [r |-> {"typesystem"}, w |-> {}, lock |-> {}]
     [] op = "proto-inferred"  -> [r |-> {}, w |-> {"infercache"}, lock |-> {"infercache"}]   \* infer.go inferMu
     [] op = "struct-lookup"   -> [r |-> {"node.bind", "typesystem"}, w |-> {}, lock |-> {}]
+    [] op = "read-gen"        -> [r |-> {"node.gen"}, w |-> {}, lock |-> {}]            \* generated nodes carry their type in code
+    [] op = "read-gen-repr"   -> [r |-> {"node.gen"}, w |-> {}, lock |-> {}]
+    [] op = "encode-gen"      -> [r |-> {"node.gen", "registry"}, w |-> {}, lock |-> {}]
+    [] op = "copy-gen"        -> [r |-> {"node.gen"}, w |-> {}, lock |-> {}]
+    [] op = "build-gen"       -> [r |-> {}, w |-> {}, lock |-> {}]                      \* generated prototypes carry no state
     [] op = "ts-clone"        -> [r |-> {"typesystem"}, w |-> {}, lock |-> {}]       \* copying a type reads its source only
     [] op = "ts-merge"        -> [r |-> {"typesystem"}, w |-> {}, lock |-> {}]       \* the target is private to the caller
 
